@@ -130,6 +130,12 @@ example : let p : Param := ⟨some (some (.optional (.literal [c!"a", c!"b"]))),
     andThen (paramToColumn true (c!"kind", p)) columnToParam
       = .ok (c!"kind", ⟨some c!"Optional[Literal['a', 'b']]", none, some c!"[FK(t.id)] the kind.", some (.str NoneStr), none, none, none⟩) := by decide
 
+/-- `repr` of Enum members as the parser writes them into `Literal[…]` (CPython's quote choice and escapes) -/
+example : Sql.reprStr c!"don't care" = c!"\"don't care\"" ∧ Sql.reprStr c!"say \"hi\"" = c!"'say \"hi\"'" ∧
+    Sql.reprStr c!"both ' and \"" = c!"'both \\' and \"'" ∧ Sql.reprStr c!"back\\slash" = c!"'back\\\\slash'" ∧
+    andThen (paramToColumn true (c!"kind", { typ := some (some (.literal [c!"don't care", c!"no"])) })) columnToParam
+      = .ok (c!"kind", { typ := some c!"Literal[\"don't care\", 'no']" }) := by decide
+
 /-- what the view of the property sees of `normSql`: name, rendered type and (plain) default are untouched -/
 theorem round_trip_view (name : Str) (p : Param) (t : Typ) (ht : p.typ = some (some t)) :
     (normSql name p).typ = some t.render ∧ (normSql name p).default = p.default.map normVal ∧
